@@ -26,7 +26,8 @@ RULE = ('state = (element type, opened contents); initial states = all lists ove
         'unit-vector and secindex(offset) index at every position; append, extend, +, radd, *, rmul, +=, *= (incl. aliasing '
         'with itself), remove, count, contains, in, find, index, sort (reverse, key), reverse, copy, clear, public slices '
         'get/set/del, six comparisons with plain lists / seclists / reflected] applied to the real seclist and to a Python '
-        'list; breadth-first to depth 3 (thorough 4) over lists of length <= cap (5 quick, 6 thorough) with de-duplication on '
+        'list; breadth-first to depth 3 (thorough 4) over lists of length <= cap (5 quick, 6 thorough for SecInt and, thorough, SecFld; one '
+        'less for the other element types) with de-duplication on '
         'the opened state; the search closes (no new state) after 1 resp. 2 layers, i.e. ALL lists over {0,1,2} up to the cap are reached and '
         'every one of them is expanded. A state is rebuilt as seclist(contents): sound because a seclist IS a Python list of secure '
         'numbers plus the class-level sectype -- it has no other field (see seclist.__init__), and the live engine '
@@ -949,26 +950,29 @@ def jobs(tier, seed):
     layers = bfs_layers(cap, depth)
     states = sorted(layers.items(), key=lambda kv: (-len(kv[0]), kv[0]))
     for tname in TNAMES:
-        cap_t = cap if tname == 'int' or not quick else 4
+        # the main type (int) and the field type get the full cap; the fixed-point variants one less
+        cap_t = cap if tname in ('int', 'fld') and not (quick and tname == 'fld') else cap - 1
         sts = [(list(s), d) for s, d in states if len(s) <= cap_t]
-        nparts = {'int': 16, 'fxph': 6, 'fxp': 4, 'fld': 2}[tname] if quick else {'int': 28, 'fxph': 20, 'fxp': 16, 'fld': 12}[tname]
+        nparts = {'int': 16, 'fxph': 6, 'fxp': 4, 'fld': 2}[tname] if quick else {'int': 20, 'fxph': 4, 'fxp': 4, 'fld': 4}[tname]
         for p in range(nparts):
             # masks = up to which list length the all-zero / all-max mask patterns are run as well (0: seeded only)
             out.append(dict(engine='bfs', tname=tname, cap=cap_t, depth=depth, k=4, tier=tier, seed=seed, states=sts[p::nparts],
-                            masks=(3 if quick else cap) if tname == 'int' else 0))
+                            masks=(3 if quick else 4) if tname == 'int' else 0))
     inits_all = small_lists(3)
     inits_q = small_lists(2) + [(0, 1, 2), (2, 2, 1), (1, 0, 1)]
-    for tname in (('int',) if quick else TNAMES):
-        inits = inits_q if quick else inits_all
-        nparts = 16
+    for tname in (('int',) if quick else ('int', 'fxph', 'fld')):
+        full = not quick and tname == 'int'            # thorough: all 40 initial lists x 27 operations for int
+        inits = inits_all if full else inits_q
+        nparts = 16 if quick else 12 if full else 3
         for p in range(nparts):
-            out.append(dict(engine='live', tname=tname, depth=3, k=4, tier=tier, seed=seed, inits=[list(i) for i in inits], part=p, parts=nparts))
+            out.append(dict(engine='live', tname=tname, depth=3, k=4, tier='thorough' if full else 'quick', seed=seed,
+                            inits=[list(i) for i in inits], part=p, parts=nparts))
     for tname in (('int',) if quick else ('int', 'fxph', 'fld')):
         for no_prss in (False, True):
-            nparts = 6 if quick else 8
+            nparts = 6 if quick else 4 if tname == 'int' else 2
             for p in range(nparts):
                 out.append(dict(engine='mp', m=3, t=1, no_prss=no_prss, tname=tname, tier=tier, seed=seed, part=p, parts=nparts,
-                                patterns=['seeded'] if quick else ['seeded', 'max']))
+                                patterns=['seeded', 'max'] if (not quick and tname == 'int') else ['seeded']))
     out.sort(key=lambda j: {'mp': 0, 'bfs': 1, 'live': 2}[j['engine']])
     return out
 
